@@ -12,17 +12,18 @@ P = {
     "coq_targets": ["Properties/C13.vo", "Run/Eval_C13.vo"],
     "theorems_module": "Properties.C13",
     "theorems": ["C13_same_lookup", "C13_same_view", "C13_same_decision", "C13_same_upstream_headers",
-                 "C13_three_entry_points_agree", "C13_fixed_F1_F4_unguarded", "C13_fixed_F4_slash_check_agrees", "C13_decision_proxy_same_execution",
-                 "C13_header_lookup_agrees", "C13_cookie_readers_agree",
-                 "C13_F1_refuted", "C13_F1_refuted_decision", "C13_F2_refuted", "C13_F3_refuted", "C13_F4_refuted",
+                 "C13_three_entry_points_agree", "C13_current_tree_agree", "C13_current_tree_captures_unguarded",
+                 "C13_all_fixed_guards", "C13_fixed_F4_slash_check_agrees", "C13_decision_proxy_same_execution",
+                 "C13_header_lookup_agrees", "C13_header_accessors_agree", "C13_cookie_readers_agree",
+                 "C13_F1_pinned_refuted", "C13_F1_pinned_refuted_decision", "C13_F2_refuted", "C13_F3_refuted", "C13_F4_refuted",
                  "C13_F4_refuted_view", "C13_F5_refuted", "C13_F5_refuted_handover", "C13_F6_refuted", "C13_F7_refuted",
-                 "C13_nonvacuous", "C13_nonvacuous_pinned"],
+                 "C13_F8_refuted", "C13_nonvacuous", "C13_nonvacuous_pinned"],
     "streams": [{
         "name": "entrypoints", "pkg": "./internal/zzverif/c13", "test": "TestVerifC13",
         "overlay": dict(ASSEMBLY_OVERLAY, **{"internal/zzverif/c13/c13_test.go": "c13/c13_test.go"}),
-        "eval_module": "Run.Eval_C13", "check_term": "check_auto",
+        "eval_module": "Run.Eval_C13", "check_term": "check_f1fixed",
         "n_quick": 1200, "n_thorough": 30000,
-        "findings": {1: "C13-F1", 2: "C13-F2", 3: "C13-F3", 4: "C13-F4", 5: "C13-F5", 6: "C13-F6", 7: "C13-F7"},
+        "findings": {2: "C13-F2", 3: "C13-F3", 4: "C13-F4", 5: "C13-F5", 6: "C13-F6", 7: "C13-F7", 8: "C13-F8"},
         "shard": 100,
     }],
     "rule": "per group of 40 cases one generated rule set of 4-7 rules (path expressions /rK/lit, /rK/:name, /rK/:a/x/:b, /rK/**, "
